@@ -183,7 +183,7 @@ func (c08Engine) Gen(r *core.Rand, tier string, i int) any {
 		sc.Side = r.Bool()
 	}
 	sep := string(c08SepRune(sc))
-	alpha := []string{sep, sep, sep, "\"", "\"", "\"\"", "\r", "\n", "\n", "\r\n", " ", "a", "b", "x"}
+	alpha := []string{sep, sep, sep, "\"", "\"", "\"\"", "\r", "\n", "\n", "\r\n", " ", "a", "b", "x", "\x00"}
 	if sc.Comment != "" {
 		alpha = append(alpha, sc.Comment, sc.Comment)
 	}
